@@ -587,7 +587,12 @@ func vE2EOne(t *testing.T, scn *vE2EScenario, tw *vTraceWriter, hostpriv ssh.Sig
 		e.vmMu.Unlock()
 		e.newDispatcher()
 	}
+	// instances whose idle behaviour the operator (this driver) has changed; only those are released
+	// later - an instance the dispatcher itself drains (it reported broken, unkillable container)
+	// must stay drained
+	opset := map[cloud.InstanceID]bool{}
 	setIB := func(id cloud.InstanceID, b worker.IdleBehavior) {
+		opset[id] = true
 		w := vE2EInst(string(id))
 		e.rec.mu.Lock()
 		e.rec.ib[w] = "any"
@@ -684,7 +689,7 @@ func vE2EOne(t *testing.T, scn *vE2EScenario, tw *vTraceWriter, hostpriv ssh.Sig
 
 	// quiesce: the operator releases every hold / drain (held instances are never shut down)
 	for _, iv := range e.disp.pool.Instances() {
-		if iv.IdleBehavior != worker.IdleBehaviorRun {
+		if iv.IdleBehavior != worker.IdleBehaviorRun && opset[iv.Instance] {
 			setIB(iv.Instance, worker.IdleBehaviorRun)
 		}
 	}
@@ -694,7 +699,7 @@ func vE2EOne(t *testing.T, scn *vE2EScenario, tw *vTraceWriter, hostpriv ssh.Sig
 	for {
 		// (a hold restored from the instance tags by a new dispatcher may show up late)
 		for _, iv := range e.disp.pool.Instances() {
-			if iv.IdleBehavior != worker.IdleBehaviorRun {
+			if iv.IdleBehavior != worker.IdleBehaviorRun && opset[iv.Instance] {
 				setIB(iv.Instance, worker.IdleBehaviorRun)
 			}
 		}
@@ -708,7 +713,14 @@ func vE2EOne(t *testing.T, scn *vE2EScenario, tw *vTraceWriter, hostpriv ssh.Sig
 		time.Sleep(5 * time.Millisecond)
 	}
 	elapsed := time.Since(start)
-	e.disp.Close()
+	// (a dispatcher whose scheduler is blocked for good cannot be stopped either: do not wait for it)
+	closed := make(chan struct{})
+	go func() { e.disp.Close(); close(closed) }()
+	select {
+	case <-closed:
+	case <-time.After(10 * time.Second):
+		e.rec.log(map[string]interface{}{"ev": "note", "what": "dispatcher did not stop within 10 s"})
+	}
 	close(e.release)
 	nf := notFinal
 	if nf == nil {
